@@ -8,21 +8,21 @@ COMMON_NOTE = ("Trusted: Lean 4.33.0 kernel; axioms of every property theorem ar
                "Modelled, not verified: bitstream-io (bit-list semantics of read/read_bit/skip/read_unary1), memchr, std Read/BufRead defaults, rfc6381-codec formatting, the Rust compiler.")
 T = {
  "C01": ("7/C01", "Theorems for every byte stream and every partition (incl. empty pushes) and every interleaving of resets: call-level model of push/reset = byte machine = declarative Annex B segmentation; chunking invariance with and without final reset. Correspondence: delivered bytes + end markers of the real AnnexBReader vs model, plus an independent reference segmentation and single-push comparison on the implementation.", "refinement proof (index loop ⊑ 6-state machine ⊑ windowed spec) + differential"),
- "C02": ("7/C02", "Theorem runOps: for every chunking, completeness flag, skip count, window size ≥ 1 and every program of fill_buf/consume/read, delivered ++ remaining view = unesc(payload) and validity is constant; unesc(escape p) = p for every payload; scanner = windowed spec. One-shot decoder: drain loop proved, final equation decodeNal = unesc with the borrow rule checked by correspondence + oracle (partial). Correspondence per operation against the real ByteReader/decode_nal + reference un-escaper.", "invariant/abstraction-function proof over reader operations + differential"),
+ "C02": ("7/C02", "Theorem runOps: for every chunking, completeness flag, skip count, window size ≥ 1 and every program of fill_buf/consume/read, delivered ++ remaining view = unesc(payload) and validity is constant; unesc(escape p) = p for every payload; scanner = windowed spec. One-shot decoder: decodeNal = unesc of everything after the header, InvalidData iff invalid, borrowed iff nothing was removed (decodeNal_eq). Correspondence per operation against the real ByteReader/decode_nal + reference un-escaper.", "invariant/abstraction-function proof over reader operations + differential"),
  "C03": ("7/C03", "PARTIAL. Proved on the model: NoPanic for SPS/PPS/slice header/pic_timing/buffering_period/bit-reader primitives for all inputs and contexts; fuel of the two slice-header loops never exhausted (termination); AVCC construction, accessors and iterators never index out of bounds; golomb_to_signed never wraps; pixel_dimensions / pic_size guarded. Lean's termination checker accepts every model function. Not expressible in the model and therefore measured on the implementation: real allocation volume and inner-reader call counts (thorough tier), dev-vs-release agreement. Correspondence: value/error/PANIC of every entry point on all streams of all properties with overflow checks on.", "closure-lemma proof (NoPanic combinators, fuel sufficiency) + differential + measurement"),
  "C04": ("7/C04", "Forward theorem: every SPS within the standard's ranges (AVC profile classes), encoded with an encoder transcribed from 7.3.2.1.1/E.1 incl. the scaling_list process, parses to exactly the encoded values, consuming up to the trailing bits, for any number of trailing zeros. Converse: every accepted bit string is that encoding of the returned value. Correspondence: Debug text of the real parser vs model on structured/faulted/mutated inputs, and Lean-generated (value, expected text) cases.", "round-trip proof both directions (parser monad, per-structure _enc/_exact lemmas) + differential"),
  "C05": ("7/C05", "Forward and converse theorems for parsePps against any context holding the referenced SPS: all 7 slice-group map types with the prescribed element counts, tail read iff more data, 6/8/12 lists. Correspondence on Debug text incl. private fields.", "round-trip proof both directions + differential"),
  "C06": ("7/C06", "Forward theorem: every conforming header (NAL 1/5, all slice types except B with explicit weights) parses to the encoded fields and activated ids and leaves the reader on the first bit of slice data (residual source). Correspondence: Debug text, ids, pointer identity of returned references, bits left and the next 16 bits.", "round-trip proof (forward) with fuel-carrying loops + differential"),
  "C07": ("7/C07", "Theorems for all codeNums 0..2^32-2 (symbolic), all widths, se mapping incl. the exact Rust u32/i32 expression, too-large rejection for ≥32 zeros, every truncation point of every codeword; converse exactness. Bit alignment is invisible in the bit-list model: realised-by-bitstream-io is validated by the correspondence at all offsets.", "algebraic round-trip proof + differential (exhaustive small, boundary-directed)"),
  "C08": ("7/C08", "Theorem for all delivery sequences (non-empty slices) × all handler policies: invocations = specification from ghost state; corollaries: exactly one complete invocation per never-ignored non-empty NAL, silence after Ignore, nothing carried over.", "invariant proof with ghost state over operation histories + differential"),
- "C09": ("7/C09", "Proved: after successful construction on ANY bytes neither iterator nor accessor can index out of bounds; construction itself never panics; too-short and wrong-version records refused. Builder round trip and create_context = fold of direct parses are covered by the correspondence (real records, Debug text of the created context) — those two clauses are not yet theorems (partial).", "invariant proof (Walked) + differential"),
- "C10": ("7/C10", "Round trip for every message list (types/sizes < 2^32, ≥1 message), also through escape + any chunking of the NAL; type-128 by position; fused after end/error; no wrapped u32; truncated payload is an error. Correspondence: every next() result incl. three extra calls.", "round-trip proof + composition with C02 + differential"),
+ "C09": ("7/C09", "Builder round trip (0..31 SPS, 0..255 PPS, lengths 0..65535, arbitrary reserved bits and extension bytes): accepted, accessors return the stored fields, iterators yield the NALs in order, create_context = fold of the direct parses; every truncation inside the declared sets refused; wrong version refused; after successful construction on ANY bytes no accessor, iterator step or create_context can panic.", "invariant proof (Walked) + differential"),
+ "C10": ("7/C10", "Round trip for every message list (types/sizes < 2^32, ≥1 message), also through escape + any chunking of the NAL; type-128 by position; fused after end/error; a type/size coding that sums to ≥ 2^32 is rejected (readU32_too_large); truncated payload is an error. Correspondence: every next() result incl. three extra calls.", "round-trip proof + composition with C02 + differential"),
  "C11": ("7/C11", "Forward theorems for pic_timing and buffering_period for every SPS VUI shape and every in-range payload, signed time offset of every width; T.35 round trip + exactness; extracted 256-entry table of the real T.35 decoder re-decided by the kernel.", "round-trip proof + kernel-decided extracted graph + differential"),
  "C12": ("7/C12", "Composition theorem: any chunking of a serialised NAL sequence → the always-Buffer handler sees every NAL completely, once, in order, byte-identical; escaped NALs contain no start code; what a parser sees of a valid NAL depends only on the concatenation of its chunks. Correspondence: whole pipeline incl. parsing inside the handler.", "composition of C01 ∘ C18 ∘ C08 ∘ C02 theorems + differential"),
  "C13": ("7/C13", "pixel_dimensions: Ok ⇔ no product ≥ 2^32 ∧ crop ≤ picture, value = the standard's formula, for every SPS; fps/codec/pic-size definitional; profile/level round trips over extracted graphs.", "case-exhaustive arithmetic proof + extracted graph + differential"),
  "C14": ("7/C14", "Complete outcome tables of has_more_rbsp_data / finish_rbsp / finish_sei_payload for every remaining bit string.", "total characterisation proof + differential (exhaustive ≤2-3 bytes × all positions)"),
  "C15": ("7/C15", "Theorem for every chunking and every program of read/fill_buf/consume/clone: delivered ++ rest = concatenation; end behaviour stable (Ok(0) vs WouldBlock); header accessors over the extracted graph.", "invariant proof over operation programs + differential"),
- "C16": ("7/C16", "Range theorems as consequences of the converse (exactness) theorems: accepted SPS/PPS satisfy WF (written-out bounds), accepted slice headers name context entries and respect moduli. SPS part carries the AVC-profile hypothesis of C04.", "corollaries of exactness proofs + boundary-directed differential"),
+ "C16": ("7/C16", "Range theorems as consequences of the converse (exactness) theorems: accepted SPS/PPS satisfy WF (written-out bounds), accepted slice headers name context entries and respect moduli. The SPS bounds are proved for every profile_idc (parseSps_ranges_all), independent of the AVC-profile hypothesis of C04.", "corollaries of exactness proofs + boundary-directed differential"),
  "C17": ("7/C17", "Mono (prefix-monotonicity) for SPS, PPS, slice-header parsers, more-data and finish; byte-level: a prefix of a valid NAL in any chunking is a truncated would-block view of the complete NAL; SPS/PPS never succeed on a partial NAL; SEI reader yields a prefix then blocks.", "closure-lemma proof (Mono combinators) + composition with C02 + differential"),
  "C18": ("7/C18", "Every call of every push/reset interleaving is well shaped; reset silent outside a unit, ends it exactly once inside; reader after reset = fresh reader; end markers = segmentation of each portion.", "invariant proof over operation histories + differential + shape oracle"),
  "C19": ("7/C19", "Refinement of ParamSetMap to a last-writer-wins map: lookup after any insertion sequence, iteration sorted, complete, duplicate-free; stores independent.", "refinement proof + differential against BTreeMap oracle"),
